@@ -192,8 +192,24 @@ def real_framefam(line):
     return ' '.join(out)
 
 
+def real_framecls(line):
+    """a frame of a REAL message class (its field container is populated by __init__), payload assigned directly"""
+    _, name, h = line.split('|')
+    pl = bytes.fromhex(h)
+    try:
+        f = find_class(name)()
+        f.data = bytearray(pl)
+        b1 = bytes(f.to_bytes())
+        b2 = bytes(f.to_bytes())
+    except Exception as e:
+        return 'EXC:' + exc_name(e)
+    return b1.hex() + ' ' + ('same' if b1 == b2 and bytes(f.data) == pl else 'DIFF')
+
+
 def real_frame(line):
     p = line.split('|')
+    if p[0] == 'framecls':
+        return real_framecls(line)
     if p[0] == 'frameseq':
         return real_frameseq(line)
     if p[0] == 'framefam':
@@ -218,6 +234,12 @@ def real_frame(line):
 def oracles_frame(line, real_out):
     p = line.split('|')
     what = 'to_bytes() = sync, class, id, 16-bit little-endian length, payload, Fletcher checksum; twice the same; frame unchanged'
+    if p[0] == 'framecls':
+        cid = find_class(p[1]).CID
+        rec = {'prop': 'C01', 'ok': real_out.endswith(' same'), 'expected': 'same', 'observed': real_out[-20:],
+               'what': 'serialising twice gives the same bytes and leaves the frame unchanged'}
+        return [rec], [{'line': f'wire|{cid.cls}|{cid.id}|{p[2]}', 'expect': real_out.split(' ')[0], 'prop': 'C01',
+                        'what': what + ' (a frame of a message class with declared fields; the payload is what `data` holds)'}]
     if p[0] == 'framefam':
         outs = real_out.split(' ')
         steps = [st.split(':') for st in p[1].split(';')]
@@ -254,6 +276,10 @@ def gen_frame(rng, n, profile):
         yield f'framegen|{rng.randrange(256)}|{rng.randrange(256)}|{ln}|{rng.randrange(1 << 30)}|{rng.choice([0, 0, 1, 2])}'
     for c, i in [(0, 0), (255, 255), (0xb5, 0x62)]:
         yield f'frame|{c}|{i}|'
+    for name, size in CLASSES.items():
+        for pl in {b'', bytes(size or 4), bytes(rng.randrange(256) for _ in range(size or 8)), bytes(rng.randrange(256) for _ in range(1)),
+                   bytes(rng.randrange(256) for _ in range((size or 8) + 3))}:
+            yield f'framecls|{name}|{pl.hex()}'
     for _ in range(max(30, n // 2)):
         steps = []
         for k in range(rng.randrange(2, 6)):
@@ -989,6 +1015,13 @@ def real_valset(line):
             f = UbxCfgValGetPoll([int(k) for k in p[1].split(',')])
             f.pack()
             return bytes(f.data).hex()
+        if p[0] == 'valgetrt':
+            f = UbxCfgValGet.construct(bytearray(bytes.fromhex(p[1])))
+            if len(p) > 2 and p[2]:
+                k, v = p[2].split('=')
+                setattr(f.f, k, int(v))
+            f.pack()
+            return bytes(f.data).hex()
         if p[0] == 'valget':
             f = UbxCfgValGet.construct(bytearray(bytes.fromhex(p[1])))
             items = [it for it in ordered_items(f) if isinstance(it, CfgKeyData)]
@@ -1041,6 +1074,32 @@ def oracles_valset(line, real_out):
             exp = (bytes(4) + b''.join(struct.pack('<I', k) for k in ks)).hex()
             recs.append({'prop': 'C14', 'ok': real_out == exp, 'expected': exp[:300], 'observed': real_out[:300],
                          'what': 'a VALGET poll lists the requested keys in order'})
+    elif p[0] == 'valgetrt':
+        data = bytes.fromhex(p[1])
+        if len(data) >= 4:
+            work, parts, bad = data[4:], [], False
+            while len(work) >= 4:
+                r = ref_unpack(work)
+                if r is None:
+                    bad = True
+                    break
+                parts.append((r[0], work[:r[1]]))
+                work = work[r[1]:]
+            if not bad:
+                edit = p[2].split('=') if len(p) > 2 and p[2] else None
+                out = bytearray(data[:4])
+                okv = True
+                for k, ((g, i, b, sg, v), raw) in enumerate(parts):
+                    raw = clear_reserved(raw)
+                    if edit and edit[0] == f'data{k}':
+                        nv = int(edit[1])
+                        okv = (nv in (0, 1)) if b == 1 else ((-(1 << (b - 1)) <= nv < (1 << (b - 1))) if sg else (0 <= nv < (1 << b)))
+                        raw = raw[:4] + (bytes([nv]) if b == 1 else (nv % (1 << b)).to_bytes(b // 8, 'little')) if okv else raw
+                    out += raw
+                if okv:
+                    exp = bytes(out).hex()
+                    recs.append({'prop': 'C08', 'ok': real_out == exp, 'expected': exp[:300], 'observed': real_out[:300],
+                                 'what': 'decoding a VALGET response and encoding it again reproduces the payload (reserved key bits zero); an edited value changes only its own bytes'})
     elif p[0] == 'valget':
         data = bytes.fromhex(p[1])
         if len(data) >= 4:
@@ -1111,6 +1170,7 @@ def gen_valset(rng, n, profile):
         if rng.random() < .05:
             pl = pl[:rng.randrange(0, 4)]
         yield 'valget|' + bytes(pl).hex()
+        yield 'valgetrt|' + bytes(pl).hex() + '|' + rng.choice(['', '', f'data{rng.randrange(3)}={rng.choice([0, 1, 200, 65535, -1])}'])
 
 
 # =====================================================================================================
